@@ -1,1 +1,361 @@
-pub fn run(_a: &vcommon::Args) {}
+//! C10 — Gossip is authenticated, fresh and never echoed back.
+//!
+//! Checker over the recorded inputs (what each peer delivered, at what local time), everything the
+//! service writes, and the contents of the gossip store read after every step.
+use std::collections::{BTreeMap, BTreeSet};
+
+use radicle::identity::doc::Visibility;
+use radicle::identity::{Did, RepoId};
+use radicle::test::storage::MockStorage;
+use radicle_node::prelude::{Filter, LocalDuration, Message, NodeId, Timestamp};
+use radicle_node::service::gossip::Store as _;
+use radicle_node::service::io::Io;
+use radicle_node::service::message::{Announcement, AnnouncementMessage};
+use radicle_node::service::policy::{Scope, SeedingPolicy};
+use radicle_node::service::{DisconnectReason, ServiceState};
+use radicle_node::{wire, Link};
+use vcommon::{guarded, json, Args, Reporter, Rng, Value};
+
+use crate::svc::{self, Remote};
+
+fn bytes_of(a: &Announcement) -> Vec<u8> {
+    wire::serialize(&Message::Announcement(a.clone()))
+}
+
+/// Own signature check: the announcer's key over the encoding of the announcement message.
+fn authentic(a: &Announcement) -> bool {
+    let msg = wire::serialize(&a.message);
+    a.node.verify(&msg, &a.signature).is_ok()
+}
+
+fn key_of(a: &Announcement) -> (NodeId, u8, Option<RepoId>) {
+    match &a.message {
+        AnnouncementMessage::Node(_) => (a.node, 0, None),
+        AnnouncementMessage::Inventory(_) => (a.node, 1, None),
+        AnnouncementMessage::Refs(r) => (a.node, 2, Some(r.rid)),
+    }
+}
+
+struct Received {
+    step: usize,
+    from: usize,
+    now_ms: u64,
+}
+
+fn one(rep: &mut Reporter, seed: u64, thorough: bool) {
+    let mut rng = Rng::new(seed);
+    let nrem = 3 + rng.usize(3);
+    // remotes[0..nrem] can connect; two more nodes only ever announce through others
+    let remotes: Vec<Remote> = (0..(nrem + 2) as u8).map(Remote::new).collect();
+    let local = svc::device(20, 0);
+    let local_nid = *local.public_key();
+    let mut inventory = vec![];
+    let mut rids = vec![];
+    for i in 0..2 {
+        let (rid, doc) = svc::mk_doc(&format!("c10-{i}-{seed}"), &[Did::from(local_nid)], Visibility::Public);
+        inventory.push((rid, doc));
+        rids.push(rid);
+    }
+    // a repository the node does not have
+    rids.push(svc::mk_doc("absent", &[Did::from(remotes[0].nid)], Visibility::Public).0);
+    let storage = MockStorage::new(inventory);
+    let opts = svc::NodeOpts { relay: rng.chance(9, 10), policy: SeedingPolicy::Allow { scope: Scope::All }, seed, fetch_concurrency: 1 };
+    let Ok(mut node) = guarded(|| svc::mk_node(storage, &opts)) else {
+        rep.inconclusive("node construction panicked", json!({}));
+        return;
+    };
+    svc::drain(&mut node);
+    let nid_index: BTreeMap<NodeId, usize> = remotes.iter().enumerate().map(|(i, r)| (r.nid, i)).collect();
+    let mut connected = vec![false; nrem];
+    let mut log: Vec<Value> = vec![];
+    // everything ever delivered: bytes -> deliveries
+    let mut delivered: BTreeMap<Vec<u8>, Vec<Received>> = BTreeMap::new();
+    let mut all_anns: Vec<Announcement> = vec![];
+    // valid node announcements fed so far (announcer known)
+    let mut node_known: BTreeSet<NodeId> = BTreeSet::new();
+    // per key: last timestamp observed in the store
+    let mut store_ts: BTreeMap<(NodeId, u8, Option<RepoId>), (u64, Vec<u8>)> = BTreeMap::new();
+    let mut ever_stored: BTreeSet<Vec<u8>> = BTreeSet::new();
+    let mut stored_at: BTreeMap<Vec<u8>, usize> = BTreeMap::new();
+    let mut last_ts: BTreeMap<(usize, u8, usize), u64> = BTreeMap::new();
+    let nsteps = 25 + rng.usize(if thorough { 70 } else { 30 });
+    let mut relays_seen = 0u64;
+    // most cases start with every peer connected and known
+    if rng.chance(3, 4) {
+        for p in 0..nrem {
+            svc::connect_inbound(&mut node, &remotes[p]);
+            connected[p] = true;
+            let a = remotes[p].node_announcement(svc::T0 - 10_000 + p as u64);
+            delivered.entry(bytes_of(&a)).or_default().push(Received { step: 0, from: p, now_ms: svc::T0 });
+            node_known.insert(a.node);
+            all_anns.push(a.clone());
+            node.service.received_message(remotes[p].nid, a.into());
+        }
+        svc::drain(&mut node);
+    }
+
+    for step in 0..nsteps {
+        let now_ms = node.service.clock().as_millis() as u64;
+        let choice = rng.below(100);
+        let mut subscriber: Option<usize> = None;
+        let desc: Value;
+        let res = guarded(|| -> Value {
+            match choice {
+                0..=5 => {
+                    let p = rng.usize(nrem);
+                    if !connected[p] {
+                        svc::connect_inbound(&mut node, &remotes[p]);
+                        connected[p] = true;
+                        json!({"connect": p})
+                    } else if rng.chance(1, 3) {
+                        node.service.disconnected(remotes[p].nid, Link::Inbound, &DisconnectReason::Command);
+                        connected[p] = false;
+                        json!({"disconnect": p})
+                    } else {
+                        json!({"noop": 1})
+                    }
+                }
+                6..=13 => {
+                    let p = rng.usize(nrem);
+                    if connected[p] {
+                        subscriber = Some(p);
+                        node.service.received_message(remotes[p].nid, svc::subscribe_all(if rng.bool() { 1 } else { now_ms.saturating_sub(100_000) }));
+                        json!({"subscribe": p})
+                    } else {
+                        json!({"noop": 1})
+                    }
+                }
+                14..=29 => {
+                    svc::elapse(&mut node, LocalDuration::from_secs(1 + rng.below(20)));
+                    json!({"elapse+wake": true})
+                }
+                _ => {
+                    // deliver an announcement through a connected peer
+                    let conn: Vec<usize> = (0..nrem).filter(|p| connected[*p]).collect();
+                    if conn.is_empty() {
+                        return json!({"noop": 1});
+                    }
+                    let from = *rng.pick(&conn);
+                    // replay an earlier announcement (same or other deliverer)? Half of the time the most
+                    // recent one, so that several peers deliver it before the next gossip tick.
+                    if !all_anns.is_empty() && rng.chance(1, 3) {
+                        let a = if rng.bool() { all_anns.last().unwrap().clone() } else { rng.pick(&all_anns).clone() };
+                        delivered.entry(bytes_of(&a)).or_default().push(Received { step, from, now_ms });
+                        if authentic(&a) && key_of(&a).1 == 0 && *a.timestamp() <= now_ms + 3_600_000 {
+                            node_known.insert(a.node);
+                        }
+                        node.service.received_message(remotes[from].nid, a.clone().into());
+                        return json!({"redeliver": {"from": from, "announcer": nid_index.get(&a.node), "ts": *a.timestamp()}});
+                    }
+                    let announcer = if rng.chance(1, 2) { from } else { rng.usize(remotes.len()) };
+                    let kind = rng.below(3) as u8;
+                    let ridx = rng.usize(rids.len());
+                    let prev = last_ts.get(&(announcer, kind, if kind == 2 { ridx } else { 0 })).copied().unwrap_or(now_ms.saturating_sub(5_000));
+                    let (ts, tclass) = match rng.below(12) {
+                        0 => (prev.saturating_sub(1 + rng.below(10_000)).max(1), "older"),
+                        1 => (prev.max(1), "equal"),
+                        2 => (now_ms + 59 * 60_000, "+59min"),
+                        3 => (now_ms + 61 * 60_000, "+61min"),
+                        4 => (now_ms + 3_600_000, "+60min-exactly"),
+                        5 => (now_ms + 3_600_001, "+60min+1ms"),
+                        6 => (now_ms.saturating_sub(2 * 3_600_000).max(1), "2h-old"),
+                        _ => (prev + 1 + rng.below(3_000), "newer"),
+                    };
+                    let mut a = match kind {
+                        0 => remotes[announcer].node_announcement(ts),
+                        1 => remotes[announcer].inventory_announcement(ts, &rids[..1 + rng.usize(rids.len())]),
+                        _ => remotes[announcer].refs_announcement(ts, rids[ridx], vec![radicle::storage::refs::RefsAt { remote: remotes[announcer].nid, at: svc::oid(&mut rng) }]),
+                    };
+                    let sclass = match rng.below(16) {
+                        0 => {
+                            // forged: signed by somebody else
+                            let other = (announcer + 1) % remotes.len();
+                            let m = a.message.clone().signed(&remotes[other].dev);
+                            a.signature = m.signature;
+                            "forged-other-key"
+                        }
+                        1 if !all_anns.is_empty() => {
+                            // valid signature of the same announcer, but over another message
+                            if let Some(o) = all_anns.iter().find(|o| o.node == a.node) {
+                                a.signature = o.signature;
+                                "valid-for-other-message"
+                            } else {
+                                "valid"
+                            }
+                        }
+                        _ => "valid",
+                    };
+                    if sclass == "valid" && ts > *last_ts.get(&(announcer, kind, if kind == 2 { ridx } else { 0 })).unwrap_or(&0) {
+                        last_ts.insert((announcer, kind, if kind == 2 { ridx } else { 0 }), ts);
+                    }
+                    if sclass == "valid" && kind == 0 && ts <= now_ms + 3_600_000 {
+                        node_known.insert(a.node);
+                    }
+                    all_anns.push(a.clone());
+                    delivered.entry(bytes_of(&a)).or_default().push(Received { step, from, now_ms });
+                    node.service.received_message(remotes[from].nid, a.into());
+                    json!({"deliver": {"from": from, "announcer": announcer, "kind": (["node", "inventory", "refs"][kind as usize]), "ts": ts, "ts_class": tclass, "signature": sclass}})
+                }
+            }
+        });
+        match res {
+            Ok(d) => desc = d,
+            Err(p) => {
+                rep.inconclusive("service panicked (C13's business)", json!({"panic": p, "log": log}));
+                return;
+            }
+        }
+        rep.eval();
+        if let Some(d) = desc.get("deliver") {
+            rep.count(&format!("fed.ts:{}", d["ts_class"].as_str().unwrap()));
+            rep.count(&format!("fed.sig:{}", d["signature"].as_str().unwrap()));
+        }
+        if desc.get("redeliver").is_some() {
+            rep.count("fed.redelivery");
+        }
+        log.push(json!({"step": step, "now_ms": now_ms, "input": desc}));
+        // ---- outputs
+        let outs = svc::drain(&mut node);
+        for io in &outs {
+            match io {
+                Io::Disconnect(nid, _) => {
+                    if let Some(p) = nid_index.get(nid) {
+                        if *p < nrem && connected[*p] {
+                            node.service.disconnected(*nid, Link::Inbound, &DisconnectReason::Command);
+                            connected[*p] = false;
+                        }
+                    }
+                }
+                Io::Write(to, msgs) => {
+                    let Some(pi) = nid_index.get(to).copied() else { continue };
+                    for m in msgs {
+                        let Message::Announcement(a) = m else { continue };
+                        if a.node == local_nid {
+                            continue;
+                        }
+                        let b = bytes_of(a);
+                        let w = |extra: Value| json!({"to_peer": pi, "announcer": nid_index.get(&a.node), "kind": svc::msg_kind(m), "ts": *a.timestamp(), "detail": extra, "log": log});
+                        rep.count("foreign-announcement-written");
+                        // authenticity
+                        let Some(recv) = delivered.get(&b) else {
+                            rep.violation("C10/written-announcement-was-never-received", w(json!({})));
+                            return;
+                        };
+                        if !authentic(a) {
+                            rep.violation("C10/written-announcement-has-invalid-signature", w(json!({})));
+                            return;
+                        }
+                        if !ever_stored.contains(&b) && subscriber != Some(pi) {
+                            // relays come out of the store; (replays too, but they are read before our snapshot may see them)
+                            rep.count("written-before-observed-in-store");
+                        }
+                        // to the announcer?
+                        if a.node == *to {
+                            rep.violation("C10/announcement-sent-to-its-announcer", w(json!({})));
+                            return;
+                        }
+                        // echo: to a peer that delivered exactly this announcement earlier (replays
+                        // answering the peer's own Subscribe in this very step are not relays)
+                        if subscriber != Some(pi) {
+                            relays_seen += 1;
+                            rep.count("relays-observed");
+                            if recv.len() >= 2 {
+                                rep.count("relays-observed.of-multi-deliverer-announcement");
+                            }
+                            if recv.iter().any(|r| r.from == pi && r.step < step) {
+                                // the node remembers as relayers only the peers whose delivery made it
+                                // store the announcement; was this peer's delivery such a one?
+                                let stored_step = stored_at.get(&b).copied();
+                                let storing_delivery = recv.iter().any(|r| r.from == pi && Some(r.step) == stored_step);
+                                let sig = if storing_delivery {
+                                    "C10/relayed-back-to-the-peer-whose-delivery-stored-it"
+                                } else {
+                                    "C10/relayed-back-to-a-peer-that-delivered-it/delivery-was-not-the-one-that-stored-it"
+                                };
+                                rep.violation(sig, w(json!({"deliveries": recv.iter().map(|r| json!({"step": r.step, "from": r.from})).collect::<Vec<_>>(), "stored_at_step": stored_step})));
+                                return;
+                            }
+                        } else {
+                            rep.count("replays-on-subscribe-observed");
+                        }
+                    }
+                }
+                _ => {}
+            }
+        }
+        // ---- store contents
+        let stored: Vec<Announcement> = match node.service.database().gossip().filtered(&Filter::default(), Timestamp::MIN, Timestamp::MAX) {
+            Ok(it) => it.filter_map(|r| r.ok()).collect(),
+            Err(_) => vec![],
+        };
+        let mut seen_keys = BTreeSet::new();
+        for a in &stored {
+            if a.node == local_nid {
+                continue;
+            }
+            let b = bytes_of(a);
+            let k = key_of(a);
+            let w = |extra: Value| json!({"announcer": nid_index.get(&a.node), "ts": *a.timestamp(), "detail": extra, "log": log});
+            if !seen_keys.insert(k) {
+                rep.violation("C10/store-holds-two-announcements-of-same-kind-and-node", w(json!({})));
+                return;
+            }
+            let newly = ever_stored.insert(b.clone());
+            if newly {
+                stored_at.insert(b.clone(), step);
+                rep.count("stored-announcements-observed");
+                let Some(recv) = delivered.get(&b) else {
+                    rep.violation("C10/stored-announcement-was-never-received", w(json!({})));
+                    return;
+                };
+                if !authentic(a) {
+                    rep.violation("C10/stored-announcement-has-invalid-signature", w(json!({})));
+                    return;
+                }
+                // not too far in the future at (every) receipt that can have stored it
+                if recv.iter().all(|r| *a.timestamp() > r.now_ms + 3_600_000) {
+                    rep.violation("C10/stored-announcement-more-than-1h-in-the-future", w(json!({"receipts": recv.iter().map(|r| r.now_ms).collect::<Vec<_>>()})));
+                    return;
+                }
+                if k.1 != 0 && !node_known.contains(&a.node) {
+                    use radicle::node::address::Store as _;
+                    let entry = node.service.database().addresses().get(&a.node).ok().flatten().map(|n| format!("{:?}", (n.alias, n.timestamp, n.addrs.len())));
+                    rep.violation("C10/stored-inventory-or-refs-of-node-without-known-node-announcement", w(json!({"address_book_entry": entry})));
+                    return;
+                }
+            }
+            // strictly newer than what the store held before for this key
+            match store_ts.get(&k) {
+                Some((old_ts, old_b)) if *old_b != b => {
+                    if *a.timestamp() <= *old_ts {
+                        rep.violation("C10/stored-announcement-replaced-by-not-strictly-newer-one", w(json!({"previous_ts": old_ts})));
+                        return;
+                    }
+                    rep.count("store-replacements-observed");
+                }
+                _ => {}
+            }
+            store_ts.insert(k, (*a.timestamp(), b));
+        }
+    }
+    if relays_seen > 0 {
+        rep.nontrivial(seed);
+    }
+    if rep.wants_sample() && relays_seen > 3 {
+        rep.sample(json!({"log": log.iter().take(25).collect::<Vec<_>>(), "relays": relays_seen}));
+    }
+}
+
+pub fn run(args: &Args) {
+    let mut rep = Reporter::new("C10");
+    if let Some(path) = &args.replay {
+        let w = vcommon::load_replay(path);
+        one(&mut rep, w["case_seed"].as_u64().unwrap_or(args.seed), args.thorough);
+        rep.finish();
+        return;
+    }
+    for k in 0..args.budget(6_400, 100_000) {
+        one(&mut rep, args.case_seed(k), args.thorough);
+    }
+    rep.finish();
+}
